@@ -203,8 +203,9 @@ func runSystemCase(limit int64, payload int64) (problems []problem, inconclusive
 	if v, ok := tag(A.ID(), tagRsvp); !ok || v != relay.ReservationTagWeight {
 		bad("audit:tag-reservation-missing", "real BasicConnMgr: tag %q on A = %d,%v", tagRsvp, v, ok)
 	}
-	if s := serviceStat(); s != (network.ScopeStat{}) {
-		bad("audit:service-memory", "relay service scope after RESERVE: %+v", s)
+	// (the client has its answer before the relay's handler has returned: poll)
+	if !eventually(10*time.Second, func() bool { return serviceStat() == network.ScopeStat{} }) {
+		bad("audit:service-memory", "relay service scope after RESERVE: %+v", serviceStat())
 	}
 
 	// data through the circuit: application payload is part of the raw bytes the limit applies to
@@ -223,8 +224,9 @@ func runSystemCase(limit int64, payload int64) (problems []problem, inconclusive
 	if v, ok := tag(A.ID(), tagHop); !ok || v != tagHopValue {
 		bad("audit:tag-hop-missing", "open circuit but tag %q on A = %d,%v", tagHop, v, ok)
 	}
-	if s := serviceStat(); s.Memory != int64(2*rc.BufferSize) || s.NumStreamsInbound != 1 || s.NumStreamsOutbound != 1 {
-		bad("audit:service-memory", "one open circuit, relay service scope %+v", s)
+	oneCircuit := network.ScopeStat{Memory: int64(2 * rc.BufferSize), NumStreamsInbound: 1, NumStreamsOutbound: 1}
+	if !eventually(10*time.Second, func() bool { return serviceStat() == oneCircuit }) {
+		bad("audit:service-memory", "one open circuit, relay service scope %+v, expected %+v", serviceStat(), oneCircuit)
 	}
 	if c := rel.VerifState().Conns; c[A.ID()] != 1 || c[B.ID()] != 1 {
 		bad("audit:circuit-counter", "one open circuit, counters %v", c)
